@@ -15,7 +15,7 @@ ADVERSARIAL = [5e-324, -5e-324, 2.2250738585072014e-308, 0.1, 1.0000000000000002
                0.0, -0.0, 1.0 / 3.0, 3.141592653589793, 1e-40, 123456789.12345679]
 
 SPEC = {
-    "C10": dict(engine="holdersim", level="exploration", runs=dict(quick=500, thorough=10000), chunk=5,
+    "C10": dict(engine="holdersim", level="exploration", runs=dict(quick=500, thorough=5000), chunk=5,
                 rule="per run (a) a seeded history of add_theta / get_theta (also out of range) / save (also empty) / load in a "
                      "fresh object graph / combine / concat on holders of both sample types with float64-adversarial parameter "
                      "values (denormals, values that do not survive float32, signed zeros, NaN), >= 10 samples per holder in a "
